@@ -57,7 +57,8 @@ PIPELINES = [
     # items without an explicit id and a template that prints which items were applied (sorted): generated identifiers
     # are part of the output a user can ask for
     {"name": "p4", "transformations": [{"type": "field_name_suffix", "suffix": "_q"}, {"type": "set_state", "key": "k", "val": "v"},
-                                        {"type": "replace_string", "regex": "^x", "replacement": "y"}],
+                                        {"type": "replace_string", "regex": "^x", "replacement": "y"},
+                                        {"type": "add_condition", "conditions": {"extra": 1}}],
      "postprocessing": [{"type": "embed", "prefix": "(", "suffix": ")"},
                         {"type": "template", "template": "{{ query }} ##applied={{ pipeline.applied_ids|sort|join(',') }} ##rule={{ rule.applied_processing_items|sort|join(',') }}"}]},
     # erroneous definitions: messages built from key sets
